@@ -610,7 +610,17 @@ func (n *node) RouteLinkPID(pid gen.PID, target gen.PID) error {
 	}
 	lib.VerifPoint(n, "RouteLinkPID:remote:before-add")
 
-	return n.targetManager.AddLink(pid, target)
+	if err := n.targetManager.AddLink(pid, target); err != nil {
+		return err
+	}
+	if c, err := n.network.Connection(target.Node); err != nil || c != connection {
+		// the connection was lost between the request and the insert: drop the relation
+		// unless the node-down drain has already taken it (and sent the notification)
+		if n.targetManager.RemoveLink(pid, target) == nil {
+			return gen.ErrNoConnection
+		}
+	}
+	return nil
 }
 
 func (n *node) RouteUnlinkPID(pid gen.PID, target gen.PID) error {
@@ -681,7 +691,17 @@ func (n *node) RouteLinkProcessID(pid gen.PID, target gen.ProcessID) error {
 		return err
 	}
 
-	return n.targetManager.AddLink(pid, target)
+	if err := n.targetManager.AddLink(pid, target); err != nil {
+		return err
+	}
+	if c, err := n.network.Connection(target.Node); err != nil || c != connection {
+		// the connection was lost between the request and the insert: drop the relation
+		// unless the node-down drain has already taken it (and sent the notification)
+		if n.targetManager.RemoveLink(pid, target) == nil {
+			return gen.ErrNoConnection
+		}
+	}
+	return nil
 }
 
 func (n *node) RouteUnlinkProcessID(pid gen.PID, target gen.ProcessID) error {
@@ -749,7 +769,17 @@ func (n *node) RouteLinkAlias(pid gen.PID, target gen.Alias) error {
 		return err
 	}
 
-	return n.targetManager.AddLink(pid, target)
+	if err := n.targetManager.AddLink(pid, target); err != nil {
+		return err
+	}
+	if c, err := n.network.Connection(target.Node); err != nil || c != connection {
+		// the connection was lost between the request and the insert: drop the relation
+		// unless the node-down drain has already taken it (and sent the notification)
+		if n.targetManager.RemoveLink(pid, target) == nil {
+			return gen.ErrNoConnection
+		}
+	}
+	return nil
 }
 
 func (n *node) RouteUnlinkAlias(pid gen.PID, target gen.Alias) error {
@@ -855,6 +885,13 @@ func (n *node) RouteLinkEvent(pid gen.PID, target gen.Event) ([]gen.MessageEvent
 	if err := n.targetManager.AddLink(pid, target); err != nil {
 		return nil, err
 	}
+	if c, err := n.network.Connection(target.Node); err != nil || c != connection {
+		// the connection was lost between the request and the insert: drop the relation
+		// unless the node-down drain has already taken it (and sent the notification)
+		if n.targetManager.RemoveLink(pid, target) == nil {
+			return nil, gen.ErrNoConnection
+		}
+	}
 
 	return lastEventMessages, nil
 }
@@ -950,7 +987,17 @@ func (n *node) RouteMonitorPID(pid gen.PID, target gen.PID) error {
 		return err
 	}
 	lib.VerifPoint(n, "RouteMonitorPID:remote:before-add")
-	return n.targetManager.AddMonitor(pid, target)
+	if err := n.targetManager.AddMonitor(pid, target); err != nil {
+		return err
+	}
+	if c, err := n.network.Connection(target.Node); err != nil || c != connection {
+		// the connection was lost between the request and the insert: drop the relation
+		// unless the node-down drain has already taken it (and sent the notification)
+		if n.targetManager.RemoveMonitor(pid, target) == nil {
+			return gen.ErrNoConnection
+		}
+	}
+	return nil
 }
 
 func (n *node) RouteDemonitorPID(pid gen.PID, target gen.PID) error {
@@ -1024,7 +1071,17 @@ func (n *node) RouteMonitorProcessID(pid gen.PID, target gen.ProcessID) error {
 	if err := connection.MonitorProcessID(pid, target); err != nil {
 		return err
 	}
-	return n.targetManager.AddMonitor(pid, target)
+	if err := n.targetManager.AddMonitor(pid, target); err != nil {
+		return err
+	}
+	if c, err := n.network.Connection(target.Node); err != nil || c != connection {
+		// the connection was lost between the request and the insert: drop the relation
+		// unless the node-down drain has already taken it (and sent the notification)
+		if n.targetManager.RemoveMonitor(pid, target) == nil {
+			return gen.ErrNoConnection
+		}
+	}
+	return nil
 }
 
 func (n *node) RouteDemonitorProcessID(pid gen.PID, target gen.ProcessID) error {
@@ -1095,7 +1152,17 @@ func (n *node) RouteMonitorAlias(pid gen.PID, target gen.Alias) error {
 		return err
 	}
 
-	return n.targetManager.AddMonitor(pid, target)
+	if err := n.targetManager.AddMonitor(pid, target); err != nil {
+		return err
+	}
+	if c, err := n.network.Connection(target.Node); err != nil || c != connection {
+		// the connection was lost between the request and the insert: drop the relation
+		// unless the node-down drain has already taken it (and sent the notification)
+		if n.targetManager.RemoveMonitor(pid, target) == nil {
+			return gen.ErrNoConnection
+		}
+	}
+	return nil
 }
 
 func (n *node) RouteDemonitorAlias(pid gen.PID, target gen.Alias) error {
@@ -1200,6 +1267,14 @@ func (n *node) RouteMonitorEvent(pid gen.PID, target gen.Event) ([]gen.MessageEv
 	if err := n.targetManager.AddMonitor(pid, target); err != nil {
 		return nil, err
 	}
+	if c, err := n.network.Connection(target.Node); err != nil || c != connection {
+		// the connection was lost between the request and the insert: drop the relation
+		// unless the node-down drain has already taken it (and sent the notification)
+		if n.targetManager.RemoveMonitor(pid, target) == nil {
+			return nil, gen.ErrNoConnection
+		}
+	}
+
 	return lastEventMessages, nil
 }
 
